@@ -9,6 +9,7 @@ import (
 	"go/token"
 	"go/types"
 	"reflect"
+	"regexp"
 	"strings"
 
 	"golang.org/x/tools/go/cfg"
@@ -683,7 +684,7 @@ func intConst(info *types.Info, e ast.Expr) (int64, bool) {
 }
 
 // R15p: strings of the schema are written as HCL string values, never as expression text.
-const ruleTextNoQuotedExprText = "strings of the schema reach the document as string values: in the schema→spec writers (dialect sqlspec files and specutil) the text handed to a raw-expression or reference constructor (specutil.VarAttr, schemahcl.RefAttr/RefValue/RawAttr, a Ref or RawExpr literal) is never a Go-quoted string (strconv.Quote, fmt.Sprintf with %q) of a schema value: Go quoting knows nothing of HCL templates, so a predicate containing `${` or `%{` is read back as an interpolation (or does not parse), while schemahcl.StringAttr escapes them"
+const ruleTextNoQuotedExprText = "strings of the schema reach the document as string values: in the schema→spec writers (dialect sqlspec files and specutil) the text handed to a raw-expression or reference constructor (specutil.VarAttr, schemahcl.RefAttr/RefValue/RawAttr, a Ref or RawExpr literal), and the text the schemahcl attribute writer prints itself (functions reachable from State.writeAttr, e.g. the arguments of a type expression), is never a Go-quoted string (strconv.Quote, fmt.Sprintf with %q) of a schema value: Go quoting knows nothing of HCL templates, so a predicate containing `${` or `%{` is read back as an interpolation (or does not parse), while schemahcl.StringAttr escapes them"
 
 func checkNoQuotedExprText(c *Ctx, rule string) {
 	n := 0
@@ -755,6 +756,41 @@ func checkNoQuotedExprText(c *Ctx, rule string) {
 				return true
 			})
 		})
+	}
+	// the document writer itself: in the schemahcl functions statically reachable from State.writeAttr (type
+	// expressions such as enum("a","b") are printed as text there) no Go-quoted run-time string is produced
+	if root := c.LookupFunc(pHCL, "State", "writeAttr"); root != nil && root.Decl.Body != nil {
+		seen := map[*types.Func]bool{root.Obj: true}
+		work := []*FuncInfo{root}
+		for len(work) > 0 {
+			fi := work[0]
+			work = work[1:]
+			info := fi.Info()
+			q := ""
+			var qpos token.Pos
+			for _, call := range callsIn(fi.Decl.Body, true) {
+				fn := calleeOf(info, call)
+				if fn == nil {
+					continue
+				}
+				if funcIs(fn, "strconv", "", "Quote") && len(call.Args) == 1 {
+					if _, isConst := stringConst(info, call.Args[0]); !isConst && q == "" {
+						q, qpos = types.ExprString(call), call.Pos()
+					}
+				}
+				if fn.Pkg() != nil && fn.Pkg().Path() == pHCL && !seen[fn] {
+					seen[fn] = true
+					if hf := c.FuncInfoOf(fn); hf != nil && hf.Decl.Body != nil {
+						work = append(work, hf)
+					}
+				}
+			}
+			n++
+			c.funcs[fi.Name] = true
+			c.Check(rule, fi.Name+"|document text is not a Go-quoted run-time string", nodePosOr(qpos, fi.Decl.Pos()), q == "", "%s, reached from the attribute writer, prints %s into the document: Go quoting leaves ${ and %%{ alone, so a string of the schema that contains them (an enum value) is read back as a template and the type does not evaluate to what was written", fi.Name, q)
+		}
+	} else {
+		c.Unresolved(rule, "schemahcl.(State).writeAttr")
 	}
 	if n < 10 {
 		c.Unresolved(rule, "raw-expression / reference attribute constructions in the spec writers (fewer than 10)")
@@ -951,5 +987,956 @@ func checkNotFoundOnly(c *Ctx, rule string) {
 	})
 	if n < 2 {
 		c.Unresolved(rule, "returns of migrate.ErrRevisionNotExist in the EntRevisions readers (fewer than 2)")
+	}
+}
+
+// R11l: one look-up decides whether a file is a checkpoint and which tag it has.
+const ruleTextCheckpointLookup = "sibling agreement of the checkpoint readers: in sql/migrate every use of the directive name constant directiveCheckpoint is an argument of the writer (AddDirective) or of the one reader (LocalFile.Directive, which searches all header comments); isCheckpoint and checkpointTag therefore agree on every file. A reader that goes to the lower-level matcher itself (first comment only, another prefix) calls a file a regular migration that its sibling, WriteCheckpoint and the sum treat as a checkpoint: a first run replays the files the checkpoint already contains"
+
+func checkCheckpointLookup(c *Ctx, rule string) {
+	readers, writers := 0, 0
+	c.AllFuncs(false, func(fi *FuncInfo) {
+		if fi.Pkg.PkgPath != pMigrate || fi.Decl.Body == nil {
+			return
+		}
+		info := fi.Info()
+		pm := parentMap(fi.Decl)
+		ord := 0
+		ast.Inspect(fi.Decl.Body, func(m ast.Node) bool {
+			id, ok := m.(*ast.Ident)
+			if !ok {
+				return true
+			}
+			cst, ok := info.Uses[id].(*types.Const)
+			if !ok || cst.Name() != "directiveCheckpoint" || cst.Pkg() == nil || cst.Pkg().Path() != pMigrate {
+				return true
+			}
+			ord++
+			c.funcs[fi.Name] = true
+			call, _ := enclosing(pm, id, func(nd ast.Node) bool { _, ok := nd.(*ast.CallExpr); return ok }).(*ast.CallExpr)
+			good, what := false, "outside a call"
+			if call != nil {
+				fn := calleeOf(info, call)
+				what = "passed to " + types.ExprString(call.Fun)
+				switch {
+				case fn != nil && fn.Name() == "AddDirective":
+					good = true
+					writers++
+				case fn != nil && fn.Name() == "Directive" && recvTypeName(fn) != "":
+					good = true
+					readers++
+				}
+			}
+			c.Check(rule, fmt.Sprintf("%s|use %d of directiveCheckpoint goes through the shared reader or writer", fi.Name, ord), id.Pos(), good, "%s consults the checkpoint directive on its own (%s) instead of through LocalFile.Directive: it can disagree with its siblings (isCheckpoint / checkpointTag / WriteCheckpoint) about which files are checkpoints, and the pending-file computation of a first run starts at the wrong file", fi.Name, what)
+			return true
+		})
+	})
+	if readers < 1 || writers < 1 {
+		c.Unresolved(rule, fmt.Sprintf("readers (%d) and writers (%d) of directiveCheckpoint in sql/migrate", readers, writers))
+	}
+}
+
+// R11m: the project file's exec_order vocabulary maps onto the flag's vocabulary one to one.
+const ruleTextExecOrderVocab = "vocabulary agreement for the execution order: the enum values declared for env.migration.exec_order (schemahcl.WithScopedEnums), pushed through the expression setMigrateEnvFlags hands to maySetFlag(cmd, flagExecOrder, …) — the lower-case/underscore transformation, a constant table or a switch helper, evaluated here on each enum constant — give pairwise different values, each of them either the flag's default (execOrderLinear) or a case of the switch in migrateApplyFlags.migrateOptions, and every case of that switch is the image of some enum value. A table entry that sends NON_LINEAR to linear-skip makes the project file select another order than the flag of the same name: an out-of-order file is skipped forever instead of being run first"
+
+func checkExecOrderVocab(c *Ctx, rule string) {
+	// 1. enum constants
+	var enums []string
+	c.AllFuncs(false, func(fi *FuncInfo) {
+		if fi.Pkg.PkgPath != pCmdapi || fi.Decl.Body == nil {
+			return
+		}
+		info := fi.Info()
+		ast.Inspect(fi.Decl.Body, func(m ast.Node) bool {
+			call, ok := m.(*ast.CallExpr)
+			if !ok || !funcIs(calleeOf(info, call), pHCL, "", "WithScopedEnums") || len(call.Args) < 2 {
+				return true
+			}
+			if k, ok := stringConst(info, call.Args[0]); !ok || k != "env.migration.exec_order" {
+				return true
+			}
+			for _, a := range call.Args[1:] {
+				if v, ok := stringConst(info, a); ok {
+					enums = append(enums, v)
+				}
+			}
+			return true
+		})
+	})
+	// 2. flag values handled
+	handled := map[string]bool{}
+	if mo := c.LookupFunc(pCmdapi, "migrateApplyFlags", "migrateOptions"); mo != nil {
+		info := mo.Info()
+		ast.Inspect(mo.Decl.Body, func(m ast.Node) bool {
+			sw, ok := m.(*ast.SwitchStmt)
+			if !ok || sw.Tag == nil {
+				return true
+			}
+			for _, cl := range sw.Body.List {
+				for _, e := range cl.(*ast.CaseClause).List {
+					if v, ok := stringConst(info, e); ok && strings.Contains(strings.ToLower(types.ExprString(e)), "order") {
+						handled[v] = true
+					}
+				}
+			}
+			return true
+		})
+	}
+	fi := c.LookupFunc(pCmdapi, "", "setMigrateEnvFlags")
+	if len(enums) < 2 || len(handled) < 1 || fi == nil {
+		c.Unresolved(rule, fmt.Sprintf("exec_order vocabulary: enums=%v flag cases=%v setMigrateEnvFlags=%v", enums, keys(handled), fi != nil))
+		return
+	}
+	info := fi.Info()
+	var arg ast.Expr
+	ast.Inspect(fi.Decl.Body, func(m ast.Node) bool {
+		call, ok := m.(*ast.CallExpr)
+		if !ok || len(call.Args) != 3 {
+			return true
+		}
+		if fn := calleeOf(info, call); fn == nil || fn.Name() != "maySetFlag" {
+			return true
+		}
+		if id, ok := ast.Unparen(call.Args[1]).(*ast.Ident); ok && id.Name == "flagExecOrder" {
+			arg = call.Args[2]
+		}
+		return true
+	})
+	if arg == nil {
+		c.Unresolved(rule, "maySetFlag(cmd, flagExecOrder, …) in setMigrateEnvFlags")
+		return
+	}
+	// 3. evaluate the expression on each enum value
+	var eval func(pinfo *types.Info, e ast.Expr, in string, params map[types.Object]string) (string, bool)
+	eval = func(pinfo *types.Info, e ast.Expr, in string, params map[types.Object]string) (string, bool) {
+		e = ast.Unparen(e)
+		if v, ok := stringConst(pinfo, e); ok {
+			return v, true
+		}
+		switch x := e.(type) {
+		case *ast.Ident:
+			if v, ok := params[pinfo.ObjectOf(x)]; ok {
+				return v, true
+			}
+		case *ast.SelectorExpr:
+			if x.Sel.Name == "ExecOrder" {
+				return in, true
+			}
+		case *ast.IndexExpr:
+			k, ok := eval(pinfo, x.Index, in, params)
+			if !ok {
+				return "", false
+			}
+			id, ok := ast.Unparen(x.X).(*ast.Ident)
+			if !ok {
+				return "", false
+			}
+			lit := c.pkgVarLiteral(pinfo.ObjectOf(id))
+			if lit == nil {
+				return "", false
+			}
+			linfo := c.infoOf(pinfo.ObjectOf(id))
+			for _, el := range lit.Elts {
+				kv, ok := el.(*ast.KeyValueExpr)
+				if !ok {
+					continue
+				}
+				if kk, ok := stringConst(linfo, kv.Key); ok && kk == k {
+					return eval(linfo, kv.Value, in, nil)
+				}
+			}
+			return "", true // missing key: zero value
+		case *ast.CallExpr:
+			fn := calleeOf(pinfo, x)
+			if fn == nil {
+				return "", false
+			}
+			if fn.Pkg() != nil && fn.Pkg().Path() == "strings" {
+				var as []string
+				for _, a := range x.Args {
+					v, ok := eval(pinfo, a, in, params)
+					if !ok {
+						return "", false
+					}
+					as = append(as, v)
+				}
+				switch {
+				case fn.Name() == "ToLower" && len(as) == 1:
+					return strings.ToLower(as[0]), true
+				case fn.Name() == "ToUpper" && len(as) == 1:
+					return strings.ToUpper(as[0]), true
+				case fn.Name() == "ReplaceAll" && len(as) == 3:
+					return strings.ReplaceAll(as[0], as[1], as[2]), true
+				case fn.Name() == "TrimSpace" && len(as) == 1:
+					return strings.TrimSpace(as[0]), true
+				}
+				return "", false
+			}
+			// a package-local helper: one string parameter, body is a switch over it returning constants (or an expression)
+			hf := c.funcOf(fn)
+			if hf == nil || hf.Decl.Body == nil || len(x.Args) != 1 || hf.Decl.Type.Params.NumFields() != 1 {
+				return "", false
+			}
+			av, ok := eval(pinfo, x.Args[0], in, params)
+			if !ok {
+				return "", false
+			}
+			hinfo := hf.Info()
+			pobj := hinfo.ObjectOf(hf.Decl.Type.Params.List[0].Names[0])
+			hp := map[types.Object]string{pobj: av}
+			for _, st := range hf.Decl.Body.List {
+				switch s := st.(type) {
+				case *ast.ReturnStmt:
+					if len(s.Results) == 1 {
+						return eval(hinfo, s.Results[0], in, hp)
+					}
+				case *ast.SwitchStmt:
+					if s.Tag == nil {
+						return "", false
+					}
+					tv, ok := eval(hinfo, s.Tag, in, hp)
+					if !ok {
+						return "", false
+					}
+					var deflt *ast.CaseClause
+					for _, cl := range s.Body.List {
+						cc := cl.(*ast.CaseClause)
+						if cc.List == nil {
+							deflt = cc
+							continue
+						}
+						for _, ce := range cc.List {
+							if cv, ok := stringConst(hinfo, ce); ok && cv == tv {
+								if len(cc.Body) == 1 {
+									if r, ok := cc.Body[0].(*ast.ReturnStmt); ok && len(r.Results) == 1 {
+										return eval(hinfo, r.Results[0], in, hp)
+									}
+								}
+								return "", false
+							}
+						}
+					}
+					if deflt != nil && len(deflt.Body) == 1 {
+						if r, ok := deflt.Body[0].(*ast.ReturnStmt); ok && len(r.Results) == 1 {
+							return eval(hinfo, r.Results[0], in, hp)
+						}
+					}
+				}
+			}
+			return "", false
+		}
+		return "", false
+	}
+	c.funcs[fi.Name] = true
+	images := map[string]string{}
+	deflt := ""
+	if dc, ok := c.Pkg(pCmdapi).Types.Scope().Lookup("execOrderLinear").(*types.Const); ok {
+		deflt = constant.StringVal(dc.Val())
+	}
+	for _, e := range enums {
+		v, ok := eval(info, arg, e, nil)
+		if !ok {
+			c.Unresolved(rule, "the expression handed to maySetFlag(cmd, flagExecOrder, …): "+types.ExprString(arg)+" (not evaluable on "+e+")")
+			return
+		}
+		prev, dup := images[v]
+		c.Check(rule, "cmdapi.setMigrateEnvFlags|exec_order "+e+" selects a flag value of its own that the option switch knows", arg.Pos(), !dup && (handled[v] || v == deflt), "the project-file value exec_order = %s is turned into --exec-order %q (already the image of %q: %v; handled by migrateOptions: %v): the configuration selects another execution order than the flag of the same name, so out-of-order files are rejected, skipped or run first contrary to what was selected", e, v, prev, dup, handled[v] || v == deflt)
+		if !dup {
+			images[v] = e
+		}
+	}
+	for h := range handled {
+		_, ok := images[h]
+		c.Check(rule, "cmdapi.setMigrateEnvFlags|flag value "+h+" is selectable from the project file", arg.Pos(), ok, "no exec_order enum value maps to the flag value %q", h)
+	}
+}
+
+func (c *Ctx) funcOf(fn *types.Func) *FuncInfo { return c.FuncInfoOf(fn) }
+
+// pkgVarLiteral returns the composite literal a package-level variable is initialised with.
+func (c *Ctx) pkgVarLiteral(obj types.Object) *ast.CompositeLit {
+	if obj == nil || obj.Pkg() == nil {
+		return nil
+	}
+	p := c.byPath[obj.Pkg().Path()]
+	if p == nil {
+		return nil
+	}
+	for _, f := range p.Syntax {
+		for _, d := range f.Decls {
+			gd, ok := d.(*ast.GenDecl)
+			if !ok {
+				continue
+			}
+			for _, sp := range gd.Specs {
+				vs, ok := sp.(*ast.ValueSpec)
+				if !ok {
+					continue
+				}
+				for i, nm := range vs.Names {
+					if p.TypesInfo.Defs[nm] == obj && i < len(vs.Values) {
+						if cl, ok := ast.Unparen(vs.Values[i]).(*ast.CompositeLit); ok {
+							return cl
+						}
+					}
+				}
+			}
+		}
+	}
+	return nil
+}
+
+func (c *Ctx) infoOf(obj types.Object) *types.Info {
+	if obj == nil || obj.Pkg() == nil || c.byPath[obj.Pkg().Path()] == nil {
+		return nil
+	}
+	return c.byPath[obj.Pkg().Path()].TypesInfo
+}
+
+// R13i: the header reader and the scanner agree on what starts a comment line.
+const ruleTextCommentOpeners = "comment-opener agreement: every line-comment opener the statement scanner skips (the first argument of Scanner.comment(o, \"\\n\") in Scanner.stmt: `#`, `--`) is recognised by LocalFile.comments as the start of a header comment line with exactly that constant (strings.HasPrefix(content, o), directly or over a table of prefixes). File directives (atlas:txmode, atlas:checkpoint, atlas:delimiter …) live in those lines: a reader that wants `-- ` where the scanner accepts `--` drops the whole header of a file that has one `--` separator line, so its txmode directive is ignored and the file runs (and rolls back, or not) in the global transaction mode"
+
+func checkCommentOpeners(c *Ctx, rule string) {
+	st := c.LookupFunc(pMigrate, "Scanner", "stmt")
+	cm := c.LookupFunc(pMigrate, "LocalFile", "comments")
+	if st == nil || cm == nil || st.Decl.Body == nil || cm.Decl.Body == nil {
+		c.Unresolved(rule, "migrate.(Scanner).stmt / migrate.(LocalFile).comments")
+		return
+	}
+	sinfo, cinfo := st.Info(), cm.Info()
+	var openers []string
+	ast.Inspect(st.Decl.Body, func(m ast.Node) bool {
+		call, ok := m.(*ast.CallExpr)
+		if !ok || len(call.Args) != 2 {
+			return true
+		}
+		if fn := calleeOf(sinfo, call); fn == nil || fn.Name() != "comment" {
+			return true
+		}
+		o, ok1 := stringConst(sinfo, call.Args[0])
+		e, ok2 := stringConst(sinfo, call.Args[1])
+		if ok1 && ok2 && e == "\n" {
+			openers = append(openers, o)
+		}
+		return true
+	})
+	// constants the header reader tests as prefixes: HasPrefix second arguments and elements of string tables in the function
+	known := map[string]bool{}
+	ast.Inspect(cm.Decl.Body, func(m ast.Node) bool {
+		switch x := m.(type) {
+		case *ast.CallExpr:
+			if funcIs(calleeOf(cinfo, x), "strings", "", "HasPrefix") && len(x.Args) == 2 {
+				if v, ok := stringConst(cinfo, x.Args[1]); ok {
+					known[v] = true
+				}
+			}
+		case *ast.CompositeLit:
+			for _, el := range x.Elts {
+				if v, ok := stringConst(cinfo, el); ok {
+					known[v] = true
+				}
+			}
+		}
+		return true
+	})
+	c.funcs[cm.Name] = true
+	for _, o := range openers {
+		c.Check(rule, "migrate.(LocalFile).comments|recognises the scanner's line-comment opener "+o, cm.Decl.Pos(), known[o], "the statement scanner skips lines that start with %q as comments but LocalFile.comments tests only the prefixes %v: a header that contains such a line is not read as the file's comment block, its directives (atlas:txmode, atlas:checkpoint) are ignored and the file is executed under the global transaction mode", o, keys(known))
+	}
+	if len(openers) < 2 {
+		c.Unresolved(rule, "line-comment openers of Scanner.stmt (fewer than 2)")
+	}
+}
+
+// R14m: executors without a history only replay.
+const ruleTextReplayOnly = "the dev database is only ever replayed: an Executor constructed with migrate.NopRevisionReadWriter (no revision history — the executors of migrate validate, of the directory state reader and of the planner's checkpoint) is used through Replay alone; Replay is the only entry point that takes the snapshot and defers the restore, so ExecuteN/Execute/ExecuteTo on such an executor runs the directory on the dev database and leaves every table it created behind"
+
+func checkReplayOnly(c *Ctx, rule string) {
+	n := 0
+	c.AllFuncs(false, func(fi *FuncInfo) {
+		if fi.Decl.Body == nil {
+			return
+		}
+		info := fi.Info()
+		ast.Inspect(fi.Decl.Body, func(m ast.Node) bool {
+			as, ok := m.(*ast.AssignStmt)
+			if !ok || len(as.Rhs) != 1 || len(as.Lhs) < 1 {
+				return true
+			}
+			call, ok := ast.Unparen(as.Rhs[0]).(*ast.CallExpr)
+			if !ok || !funcIs(calleeOf(info, call), pMigrate, "", "NewExecutor") || len(call.Args) < 3 {
+				return true
+			}
+			if !typeIs(derefType(info.TypeOf(call.Args[2])), pMigrate, "NopRevisionReadWriter") {
+				return true
+			}
+			id, ok := as.Lhs[0].(*ast.Ident)
+			if !ok {
+				return true
+			}
+			ex := info.ObjectOf(id)
+			n++
+			c.funcs[fi.Name] = true
+			bad := ""
+			pos := as.Pos()
+			ast.Inspect(fi.Decl.Body, func(k ast.Node) bool {
+				switch x := k.(type) {
+				case *ast.SelectorExpr:
+					if rid, ok := ast.Unparen(x.X).(*ast.Ident); ok && info.ObjectOf(rid) == ex && x.Sel.Name != "Replay" {
+						if _, isFn := info.ObjectOf(x.Sel).(*types.Func); isFn && bad == "" {
+							bad, pos = x.Sel.Name, x.Pos()
+						}
+					}
+				}
+				return true
+			})
+			c.Check(rule, fi.Name+"|the executor without history is used through Replay only", pos, bad == "", "%s calls %s on an executor built with NopRevisionReadWriter (a replay on the dev database): only Replay takes the snapshot and restores it, so the objects the migration files create stay in the dev database", fi.Name, bad)
+			return true
+		})
+	})
+	if n < 3 {
+		c.Unresolved(rule, "executors constructed with migrate.NopRevisionReadWriter (fewer than 3)")
+	}
+}
+
+// R14n: the PostgreSQL restore drops with CASCADE.
+const ruleTextRestoreCascade = "the PostgreSQL restore functions (the closures built by SchemaRestoreFunc / RealmRestoreFunc) hand a computed diff to ApplyChanges only through withCascade: the community inspection does not see every dependent object (a view over a table created by the replay), a plain DROP TABLE is rejected by the server for such a table and the restore aborts with the dev database still full"
+
+func checkRestoreCascade(c *Ctx, rule string) {
+	n := 0
+	for _, name := range []string{"SchemaRestoreFunc", "RealmRestoreFunc"} {
+		fi := c.LookupFunc(pPostgres, "Driver", name)
+		if fi == nil || fi.Decl.Body == nil {
+			continue
+		}
+		info := fi.Info()
+		ord := 0
+		ast.Inspect(fi.Decl.Body, func(m ast.Node) bool {
+			call, ok := m.(*ast.CallExpr)
+			if !ok || len(call.Args) != 2 {
+				return true
+			}
+			if fn := calleeOf(info, call); fn == nil || fn.Name() != "ApplyChanges" {
+				return true
+			}
+			arg := ast.Unparen(call.Args[1])
+			if _, isLit := arg.(*ast.CompositeLit); isLit {
+				return true // a fixed list written out in the function (re-creating the public schema)
+			}
+			n++
+			ord++
+			c.funcs[fi.Name] = true
+			good := false
+			if inner, ok := arg.(*ast.CallExpr); ok {
+				if fn := calleeOf(info, inner); fn != nil && fn.Name() == "withCascade" {
+					good = true
+				}
+			}
+			if id, ok := arg.(*ast.Ident); ok && !good {
+				// a variable whose every assignment in the function is a withCascade call
+				obj := info.ObjectOf(id)
+				defs, casc := 0, 0
+				ast.Inspect(fi.Decl.Body, func(k ast.Node) bool {
+					if as, ok := k.(*ast.AssignStmt); ok {
+						for i, l := range as.Lhs {
+							if lid, ok := l.(*ast.Ident); ok && info.ObjectOf(lid) == obj {
+								defs++
+								if len(as.Rhs) == len(as.Lhs) {
+									if ic, ok := ast.Unparen(as.Rhs[i]).(*ast.CallExpr); ok {
+										if fn := calleeOf(info, ic); fn != nil && fn.Name() == "withCascade" {
+											casc++
+										}
+									}
+								}
+							}
+						}
+					}
+					return true
+				})
+				good = defs > 0 && defs == casc
+			}
+			c.Check(rule, fmt.Sprintf("%s|restore %d applies its diff with CASCADE", fi.Name, ord), call.Pos(), good, "%s applies the restore diff (%s) without withCascade: DROP TABLE of a table that an object outside the inspected set depends on (a view) is rejected, the restore fails and the dev database is handed back with the replayed tables in it", fi.Name, types.ExprString(arg))
+			return true
+		})
+	}
+	if n < 3 {
+		c.Unresolved(rule, "ApplyChanges calls of the PostgreSQL restore functions (fewer than 3)")
+	}
+}
+
+// R15q: a foreign key's reference columns are rewritten from its reference columns.
+const ruleTextFKSides = "side agreement for foreign keys in the spec writers: an assignment that stores into X.Columns[i] or X.RefColumns[i] of one foreign key while reading the Columns / RefColumns of another foreign-key value reads the field of the same name (RefColumns from RefColumns, Columns from Columns). The two slices are index-aligned and of one type, so a slip compiles; QualifyReferences would write the child column's name into the qualified reference of the parent column, and the evaluated HCL points the key at another column or does not evaluate"
+
+func checkFKSides(c *Ctx, rule string) {
+	n := 0
+	isFK := func(t types.Type) bool {
+		t = derefType(t)
+		return typeIs(t, pSchema, "ForeignKey") || typeIs(t, pSqlspec, "ForeignKey")
+	}
+	for _, pp := range []string{pSpecutil, pSqlite, pMysql, pPostgres} {
+		c.AllFuncs(false, func(fi *FuncInfo) {
+			if fi.Pkg.PkgPath != pp || fi.Decl.Body == nil {
+				return
+			}
+			info := fi.Info()
+			ord := 0
+			side := func(e ast.Expr) (string, ast.Expr) {
+				// X.Columns[...] / X.RefColumns[...] / X.Columns / X.RefColumns with X a foreign key
+				e = ast.Unparen(e)
+				if ix, ok := e.(*ast.IndexExpr); ok {
+					e = ast.Unparen(ix.X)
+				}
+				se, ok := e.(*ast.SelectorExpr)
+				if !ok || (se.Sel.Name != "Columns" && se.Sel.Name != "RefColumns") || !isFK(info.TypeOf(se.X)) {
+					return "", nil
+				}
+				return se.Sel.Name, se.X
+			}
+			ast.Inspect(fi.Decl.Body, func(m ast.Node) bool {
+				as, ok := m.(*ast.AssignStmt)
+				if !ok || len(as.Lhs) != len(as.Rhs) {
+					return true
+				}
+				for i, l := range as.Lhs {
+					lf, lx := side(l)
+					if lf == "" {
+						continue
+					}
+					var other string
+					ast.Inspect(as.Rhs[i], func(k ast.Node) bool {
+						e, ok := k.(ast.Expr)
+						if !ok {
+							return true
+						}
+						if rf, rx := side(e); rf != "" && types.ExprString(rx) != types.ExprString(lx) {
+							if rf != lf {
+								other = types.ExprString(e)
+							}
+							return false
+						}
+						return true
+					})
+					// count only stores that read another foreign key at all
+					reads := false
+					ast.Inspect(as.Rhs[i], func(k ast.Node) bool {
+						if e, ok := k.(ast.Expr); ok {
+							if rf, rx := side(e); rf != "" && types.ExprString(rx) != types.ExprString(lx) {
+								reads = true
+							}
+						}
+						return !reads
+					})
+					if !reads {
+						continue
+					}
+					n++
+					ord++
+					c.funcs[fi.Name] = true
+					c.Check(rule, fmt.Sprintf("%s|store %d into %s reads the same side of the other key", fi.Name, ord, lf), as.Pos(), other == "", "%s stores into %s of a foreign key a value computed from %s of the other one: the reference is written with the name of a column of the wrong table, so the re-evaluated schema has the key pointing at a different column (or the document does not evaluate)", fi.Name, types.ExprString(l), other)
+				}
+				return true
+			})
+		})
+	}
+	if n < 2 {
+		c.Unresolved(rule, "stores into Columns/RefColumns of a foreign key computed from another foreign key (fewer than 2)")
+	}
+}
+
+// R15r: a type recognised as an array stays an array.
+const ruleTextArrayKept = "recognition implies preservation for PostgreSQL arrays: every function of sql/postgres that recognises an array type by its name (a call of arrayType) keeps the array — it builds an ArrayType literal with its element, or stores the resolved element into the Type field of an *ArrayType value; the HCL evaluator resolves `sql(\"state[]\")` against the enums of the document this way, and replacing the column's type by the enum itself turns an array column into a scalar one"
+
+func checkArrayKept(c *Ctx, rule string) {
+	n := 0
+	c.AllFuncs(false, func(fi *FuncInfo) {
+		if fi.Pkg.PkgPath != pPostgres || fi.Decl.Body == nil || fi.Decl.Name.Name == "arrayType" {
+			return
+		}
+		info := fi.Info()
+		recognises := false
+		for _, call := range callsIn(fi.Decl.Body, true) {
+			if funcIs(calleeOf(info, call), pPostgres, "", "arrayType") {
+				recognises = true
+			}
+		}
+		if !recognises {
+			return
+		}
+		n++
+		c.funcs[fi.Name] = true
+		kept := false
+		var keeps func(body ast.Node, binfo *types.Info, depth int)
+		keeps = func(body ast.Node, binfo *types.Info, depth int) {
+			ast.Inspect(body, func(m ast.Node) bool {
+				switch x := m.(type) {
+				case *ast.CompositeLit:
+					if typeIs(derefType(binfo.TypeOf(x)), pPostgres, "ArrayType") {
+						for _, el := range x.Elts {
+							if kv, ok := el.(*ast.KeyValueExpr); ok {
+								if id, ok := kv.Key.(*ast.Ident); ok && (id.Name == "Type" || id.Name == "T") {
+									kept = true
+								}
+							}
+						}
+					}
+				case *ast.AssignStmt:
+					for _, l := range x.Lhs {
+						if se, ok := ast.Unparen(l).(*ast.SelectorExpr); ok && se.Sel.Name == "Type" && typeIs(derefType(binfo.TypeOf(se.X)), pPostgres, "ArrayType") {
+							kept = true
+						}
+					}
+				case *ast.CallExpr:
+					// the recognised name handed to a package-local function that builds the array (ParseType → columnType)
+					if depth > 0 {
+						if fn := calleeOf(binfo, x); fn != nil && fn.Pkg() != nil && fn.Pkg().Path() == pPostgres && fn.Name() != "arrayType" {
+							if hf := c.FuncInfoOf(fn); hf != nil && hf.Decl.Body != nil && hf.Decl != fi.Decl {
+								keeps(hf.Decl.Body, hf.Info(), depth-1)
+							}
+						}
+					}
+				}
+				return !kept
+			})
+		}
+		keeps(fi.Decl.Body, info, 1)
+		ast.Inspect(fi.Decl.Body, func(m ast.Node) bool {
+			if kept {
+				return false
+			}
+			switch x := m.(type) {
+			case *ast.CompositeLit:
+				if typeIs(derefType(info.TypeOf(x)), pPostgres, "ArrayType") {
+					for _, el := range x.Elts {
+						if kv, ok := el.(*ast.KeyValueExpr); ok {
+							if id, ok := kv.Key.(*ast.Ident); ok && id.Name == "Type" {
+								kept = true
+							}
+						}
+					}
+				}
+			case *ast.AssignStmt:
+				for _, l := range x.Lhs {
+					if se, ok := ast.Unparen(l).(*ast.SelectorExpr); ok && se.Sel.Name == "Type" && typeIs(derefType(info.TypeOf(se.X)), pPostgres, "ArrayType") {
+						kept = true
+					}
+				}
+			}
+			return true
+		})
+		c.Check(rule, fi.Name+"|a recognised array keeps its ArrayType", fi.Decl.Pos(), kept, "%s recognises an array type by name (arrayType) but never builds an ArrayType with its element nor stores the element into one: the column's type is replaced by the element type, an array-of-enum column evaluates to a scalar enum and the diff with the original reports a type change in both directions", fi.Name)
+	})
+	if n < 3 {
+		c.Unresolved(rule, "functions of sql/postgres that call arrayType (fewer than 3)")
+	}
+}
+
+// R12j: the statement hashes cover the statement text itself.
+const ruleTextHashLiteralText = "what is hashed is what was executed: in Executor.Execute the bytes written into the running statement hash (the Write on the sha256 value inside the loop that fills the per-statement sums) are the conversion of the statement's Text and nothing else — no call normalises, trims or re-joins the text first. The sums are compared with Revision.PartialHashes to refuse a changed history: a normalised input makes every edit the normalisation hides (blanks inside a string literal of an applied INSERT) invisible, the run resumes and completes the revision"
+
+func checkHashLiteralText(c *Ctx, rule string) {
+	fi := c.Func(rule, pMigrate, "Executor", "Execute")
+	if fi == nil {
+		return
+	}
+	info := fi.Info()
+	n := 0
+	ast.Inspect(fi.Decl.Body, func(m ast.Node) bool {
+		loop, ok := m.(*ast.RangeStmt)
+		if !ok {
+			return true
+		}
+		for _, call := range callsIn(loop.Body, false) {
+			se, ok := call.Fun.(*ast.SelectorExpr)
+			if !ok || se.Sel.Name != "Write" || len(call.Args) != 1 {
+				continue
+			}
+			// receiver implements hash.Hash
+			rt := info.TypeOf(se.X)
+			if rt == nil || !strings.Contains(rt.String(), "hash.Hash") {
+				continue
+			}
+			n++
+			c.funcs[fi.Name] = true
+			arg := ast.Unparen(call.Args[0])
+			// accepted: []byte(X.Text) or X.Text of a *Stmt (or a local with that single definition)
+			isText := func(e ast.Expr) bool {
+				se, ok := ast.Unparen(e).(*ast.SelectorExpr)
+				return ok && se.Sel.Name == "Text" && typeIs(derefType(info.TypeOf(se.X)), pMigrate, "Stmt")
+			}
+			good := false
+			if conv, ok := arg.(*ast.CallExpr); ok && len(conv.Args) == 1 {
+				if tv, ok := info.Types[conv.Fun]; ok && tv.IsType() && isText(conv.Args[0]) {
+					good = true
+				}
+			}
+			if isText(arg) {
+				good = true
+			}
+			c.Check(rule, fmt.Sprintf("migrate.(Executor).Execute|hash input %d is the statement text", n), call.Pos(), good, "Execute feeds %s into the statement hash instead of the bytes of the statement's text: an edit of an applied statement that the transformation hides is not seen as a changed history, so the file is resumed and its revision completed", types.ExprString(arg))
+		}
+		return true
+	})
+	if n < 1 {
+		c.Unresolved(rule, "the Write into the statement hash in Executor.Execute")
+	}
+}
+
+// R09q: a pragma line the filter removes is a pragma line the state machine sees.
+const ruleTextPragmaRecognised = "filter/recogniser agreement in the third-party readers (goose, dbmate StmtDecls): for every pragma word W of the reader's state switch, if the line filter (reGoosePragma / reDBMatePragma, evaluated here on constants) removes the line `<pragma>W` followed by blanks, the switch tag is normalised with strings.TrimSpace so that the same line is recognised as W. A line that is filtered but not recognised changes no state: `-- migrate:up ` with a trailing blank yields a file with no statements (recorded as applied although nothing ran), `-- migrate:down ` lets the down section be executed"
+
+func checkPragmaRecognised(c *Ctx, rule string) {
+	p := c.Pkg(pSqltool)
+	n := 0
+	for recv, reName := range map[string]string{"GooseFile": "reGoosePragma", "DBMateFile": "reDBMatePragma"} {
+		fi := c.LookupFunc(pSqltool, recv, "StmtDecls")
+		if fi == nil || fi.Decl.Body == nil {
+			c.Unresolved(rule, "sqltool.("+recv+").StmtDecls")
+			continue
+		}
+		info := fi.Info()
+		// the filter pattern
+		var src ast.Expr
+		for _, file := range p.Syntax {
+			ast.Inspect(file, func(m ast.Node) bool {
+				if vs, ok := m.(*ast.ValueSpec); ok {
+					for i, nm := range vs.Names {
+						if nm.Name == reName && i < len(vs.Values) {
+							if call, ok := vs.Values[i].(*ast.CallExpr); ok && len(call.Args) == 1 {
+								src = call.Args[0]
+							}
+						}
+					}
+				}
+				return true
+			})
+		}
+		pattern, ok := "", false
+		if src != nil {
+			pattern, ok = evalString(p.TypesInfo, src)
+		}
+		if !ok {
+			c.Unresolved(rule, "sqltool."+reName+": constant pattern")
+			continue
+		}
+		re, err := regexp.Compile(pattern)
+		if err != nil {
+			c.Unresolved(rule, "sqltool."+reName+": "+err.Error())
+			continue
+		}
+		// the state switch: tag derived from strings.TrimPrefix(line, pragma)
+		ast.Inspect(fi.Decl.Body, func(m ast.Node) bool {
+			sw, ok := m.(*ast.SwitchStmt)
+			if !ok || sw.Tag == nil {
+				return true
+			}
+			var pragma string
+			trimmed := false
+			ast.Inspect(sw.Tag, func(k ast.Node) bool {
+				if call, ok := k.(*ast.CallExpr); ok {
+					fn := calleeOf(info, call)
+					if funcIs(fn, "strings", "", "TrimPrefix") && len(call.Args) == 2 {
+						pragma, _ = stringConst(info, call.Args[1])
+					}
+					if funcIs(fn, "strings", "", "TrimSpace") || funcIs(fn, "strings", "", "Fields") {
+						trimmed = true
+					}
+				}
+				return true
+			})
+			if pragma == "" {
+				// the tag may be a local defined from TrimPrefix
+				if id, ok := ast.Unparen(sw.Tag).(*ast.Ident); ok {
+					obj := info.ObjectOf(id)
+					ast.Inspect(fi.Decl.Body, func(k ast.Node) bool {
+						if as, ok := k.(*ast.AssignStmt); ok {
+							for i, l := range as.Lhs {
+								if lid, ok := l.(*ast.Ident); ok && info.ObjectOf(lid) == obj && i < len(as.Rhs) {
+									ast.Inspect(as.Rhs[i], func(q ast.Node) bool {
+										if call, ok := q.(*ast.CallExpr); ok {
+											fn := calleeOf(info, call)
+											if funcIs(fn, "strings", "", "TrimPrefix") && len(call.Args) == 2 {
+												pragma, _ = stringConst(info, call.Args[1])
+											}
+											if funcIs(fn, "strings", "", "TrimSpace") || funcIs(fn, "strings", "", "Fields") {
+												trimmed = true
+											}
+										}
+										return true
+									})
+								}
+							}
+						}
+						return true
+					})
+				}
+			}
+			if pragma == "" {
+				return true
+			}
+			for _, cl := range sw.Body.List {
+				for _, e := range cl.(*ast.CaseClause).List {
+					w, ok := stringConst(info, e)
+					if !ok {
+						continue
+					}
+					n++
+					c.funcs[fi.Name] = true
+					// lines the filter removes although the raw remainder differs from W
+					var lost []string
+					for _, line := range []string{pragma + w + " ", pragma + w + "\t", pragma + " " + w, pragma + " " + w + "  "} {
+						rest := strings.TrimPrefix(line, pragma)
+						if re.MatchString(line) && rest != w && !trimmed {
+							lost = append(lost, line)
+						}
+					}
+					c.Check(rule, fi.Name+"|pragma "+w+" is recognised wherever the filter removes it", sw.Pos(), len(lost) == 0, "%s: the line filter %s removes the lines %q, but the state switch compares the untrimmed remainder with %q and does not recognise them: the line vanishes without changing the state, so the statements after it are attributed to the wrong section (none is run although the file is recorded as applied, or the down section is executed)", fi.Name, reName, lost, w)
+				}
+			}
+			return true
+		})
+	}
+	if n < 4 {
+		c.Unresolved(rule, "pragma words of the goose/dbmate state switches (fewer than 4)")
+	}
+}
+
+// R09r: a state set by a pragma line is consumed in the same iteration.
+const ruleTextStateConsumed = "typestate of the line readers: when the loop body of a third-party reader contains a block `if state == V { state = …; … }` that consumes the state V (goose: the end-of-statement state, which emits the delimiter and returns to `up`), every store `state = V` reaches that block within the same iteration: under the assumption state == V, the next iteration is not reachable from the store without passing another store to state. A `continue` between the two defers the consumption to the next line, which is then dropped (the filter condition `state != end` holds it back): the statement that directly follows `-- +goose StatementEnd` is never executed although the file is recorded as fully applied"
+
+func checkStateConsumed(c *Ctx, rule string) {
+	n := 0
+	for _, recv := range []string{"GooseFile", "DBMateFile"} {
+		fi := c.LookupFunc(pSqltool, recv, "StmtDecls")
+		if fi == nil || fi.Decl.Body == nil {
+			continue
+		}
+		info := fi.Info()
+		f := newFlow(info, fi.Decl.Body)
+		var loop ast.Stmt
+		ast.Inspect(fi.Decl.Body, func(m ast.Node) bool {
+			if st, ok := m.(ast.Stmt); ok && loopBodyOf(st) != nil && loop == nil {
+				loop = st
+			}
+			return loop == nil
+		})
+		if loop == nil {
+			continue
+		}
+		constOf := func(e ast.Expr) (string, bool) {
+			tv, ok := info.Types[e]
+			if !ok || tv.Value == nil {
+				return "", false
+			}
+			return tv.Value.ExactString(), true
+		}
+		// consuming blocks: if <v> == V { … <v> = … }
+		type consumer struct {
+			obj  types.Object
+			val  string
+			name string
+			ifs  *ast.IfStmt
+		}
+		var cons []consumer
+		ast.Inspect(loopBodyOf(loop), func(m ast.Node) bool {
+			ifs, ok := m.(*ast.IfStmt)
+			if !ok {
+				return true
+			}
+			be, ok := ast.Unparen(ifs.Cond).(*ast.BinaryExpr)
+			if !ok || be.Op != token.EQL {
+				return true
+			}
+			id, ok := ast.Unparen(be.X).(*ast.Ident)
+			if !ok {
+				return true
+			}
+			v, ok := constOf(be.Y)
+			if !ok {
+				return true
+			}
+			stores := false
+			ast.Inspect(ifs.Body, func(k ast.Node) bool {
+				if as, ok := k.(*ast.AssignStmt); ok {
+					for _, l := range as.Lhs {
+						if lid, ok := l.(*ast.Ident); ok && info.ObjectOf(lid) == info.ObjectOf(id) {
+							stores = true
+						}
+					}
+				}
+				return true
+			})
+			if stores {
+				cons = append(cons, consumer{info.ObjectOf(id), v, types.ExprString(be.Y), ifs})
+			}
+			return true
+		})
+		_, next := loopBlocks(f, loop)
+		for _, cn := range cons {
+			isStore := func(nd ast.Node) bool {
+				as, ok := nd.(*ast.AssignStmt)
+				if !ok {
+					return false
+				}
+				for _, l := range as.Lhs {
+					if lid, ok := l.(*ast.Ident); ok && info.ObjectOf(lid) == cn.obj {
+						return true
+					}
+				}
+				return false
+			}
+			atom := func(e ast.Expr) int {
+				be, ok := ast.Unparen(e).(*ast.BinaryExpr)
+				if !ok || (be.Op != token.EQL && be.Op != token.NEQ) {
+					return -1
+				}
+				id, ok := ast.Unparen(be.X).(*ast.Ident)
+				if !ok || info.ObjectOf(id) != cn.obj {
+					return -1
+				}
+				v, ok := constOf(be.Y)
+				if !ok {
+					return -1
+				}
+				eq := v == cn.val
+				if be.Op == token.NEQ {
+					eq = !eq
+				}
+				if eq {
+					return 1
+				}
+				return 0
+			}
+			for _, pt := range f.find(func(nd ast.Node) bool {
+				as, ok := nd.(*ast.AssignStmt)
+				if !ok || !isStore(nd) || len(as.Rhs) != 1 {
+					return false
+				}
+				v, ok := constOf(as.Rhs[0])
+				return ok && v == cn.val && !(cn.ifs.Pos() <= as.Pos() && as.End() <= cn.ifs.End())
+			}) {
+				n++
+				c.funcs[fi.Name] = true
+				escaped := f.reachBlockEdges([]point{after(pt)}, isStore, next, func(b *cfg.Block, si int) bool {
+					cond, _, _ := condOf(b)
+					if cond == nil {
+						return false
+					}
+					if syn, ok := taggedCase[cond]; ok {
+						cond = syn
+					}
+					switch eval3(cond, atom) {
+					case 1:
+						return si == 1
+					case 0:
+						return si == 0
+					}
+					return false
+				})
+				c.Check(rule, fmt.Sprintf("%s|state %s set by a pragma is consumed in the same iteration", fi.Name, cn.name), pt.b.Nodes[pt.i].Pos(), !escaped, "%s: after the store of the state %s the loop can start its next iteration without running the block that consumes it (`if %s`): the consumption happens one line late, and that line — the first line after the pragma — is dropped from the statements", fi.Name, cn.name, types.ExprString(cn.ifs.Cond))
+			}
+		}
+	}
+	if n < 1 {
+		c.Unresolved(rule, "stores of a consumed state in the goose/dbmate readers")
 	}
 }
